@@ -265,6 +265,18 @@ func (p *Proxy) handleLoop(conn net.Conn) {
 		return
 	}
 
+	// A MITM'd CONNECT on a traffic shaped connection moves the session onto a
+	// second traffic shaped connection (wrapping the TLS side), for which the
+	// listener created buckets of its own. Nobody else closes that connection:
+	// do it here, so that its buckets are released together with those of conn.
+	defer func() {
+		if cur, _ := s.connection(); cur != conn {
+			if tsconn, ok := cur.(*trafficshape.Conn); ok {
+				tsconn.Close()
+			}
+		}
+	}()
+
 	for {
 		deadline := time.Now().Add(p.timeout)
 		conn.SetDeadline(deadline)
